@@ -535,13 +535,30 @@ def analyse_matrix_kernel(ck, fn, struct):
         # `if(rows == 0) return;` in front does what zero iterations of the row loop do
         top = [s for s in top if not (s.get("k") == "If" and s.get("else") is None and alias_value(s["c"], mk.loc, {}, [], size_name="rows") == EMPTY
                                       and [x.get("k") for x in stmts(s["then"])] == ["Return"])]
+        problems = []
+        cleared = None        # extent [0, cleared) of the output vector zeroed by a loop in front of the row loop
+        if struct in ("Lumping", "RowNorm") and len(top) > 1 and all(x_.get("k") == "For" for x_ in top):
+            outname = "lump" if struct == "Lumping" else "row_norms"
+            for pre in top[:-1]:
+                lf_ = loop_form(pre)
+                body_ = stmts(pre.get("body"))
+                if lf_ is None or lf_["others"] or lf_["down"] or lf_["hi_off"] or not is_zero(mk.loc.resolve(lf_["lo"])) or len(body_) != 1 or body_[0].get("k") != "Assign" or body_[0].get("op") != "=":
+                    raise Unknown("loop at line %s in front of the row loop is not a clearing loop `for(t=0; t<n; ++t) %s[t] = 0`" % (pre.get("l"), outname))
+                a_ = body_[0]
+                l_ = strip(a_["lhs"])
+                rz = mk.loc.resolve(a_["rhs"])
+                pa_ = mk.ptr_off(l_["b"]) if l_.get("k") == "Index" else None
+                if pa_ is None or mk.params.get(pa_[0]) != outname or pa_[1] != 0 or not (strip(l_["idx"]).get("k") == "Ref" and strip(l_["idx"]).get("d") == lf_["var"]) \
+                        or not (is_zero(rz) or (rz.get("k") in ("Int", "Float") and float(rz["v"]) == 0)) or cleared is not None:
+                    raise Unknown("loop at line %s in front of the row loop is not a clearing loop `for(t=0; t<n; ++t) %s[t] = 0`" % (pre.get("l"), outname))
+                cleared = (sympy.expand(mk.isym(lf_["hi"])), pre.get("l"))
+            top = top[-1:]
         if len(top) != 1 or top[0].get("k") != "For":
             raise Unknown("body is not a single loop over the rows")
         out = []
         mk.leaves(top[0], {}, out)
         if "ROW" not in (out[0][1] if out else {}):
             raise Unknown("outer loop is not for(row=0; row<rows; ++row)")
-        problems = []
         events = []       # (where, target, op, new, line)
         for s, env in out:
             if s.get("k") == "Decl":
@@ -580,6 +597,41 @@ def analyse_matrix_kernel(ck, fn, struct):
                         pass
                 events.append((env, "rowexit", {"cond": render(s["c"]), "ckind": ckind, "stores": stores, "how": br[-1][0]["k"]}, None, br[-1][0].get("l") or s.get("l")))
                 continue
+            if s.get("k") == "If" and struct in ("ScaleRows", "ScaleCols"):
+                # `if(<factor> == c [&& r == a]) continue;`: the entries of this row / this entry are not written on that path
+                if s.get("else") is not None or [x_.get("k") for x_ in stmts(s["then"])] != ["Continue"]:
+                    raise Unknown("conditional at line %s is not `if(...) continue;`" % s.get("l"))
+                conj = []
+
+                def flat_(c_):
+                    c_ = mk.loc.resolve(c_)
+                    if c_.get("k") == "Bin" and c_.get("op") == "&&":
+                        flat_(c_["lhs"]); flat_(c_["rhs"])
+                    else:
+                        conj.append(c_)
+                flat_(s["c"])
+                val_, inplace_ = None, False
+                for c_ in conj:
+                    ok_ = False
+                    if c_.get("k") == "Bin" and c_.get("op") == "==":
+                        l_, r_ = mk.loc.resolve(c_["lhs"]), mk.loc.resolve(c_["rhs"])
+                        if l_.get("k") == "Ref" and r_.get("k") == "Ref" and {mk.params.get(l_.get("d")), mk.params.get(r_.get("d"))} == {"r", "a"}:
+                            inplace_, ok_ = True, True
+                        else:
+                            for u_, w_ in ((l_, r_), (r_, l_)):
+                                cv_ = const_value(mk.loc, w_)
+                                if cv_ is not None and ok_ is False:
+                                    try:
+                                        if mk.vsym(u_) == sympy.Symbol("x"):
+                                            val_, ok_ = cv_, True
+                                    except Unknown:
+                                        pass
+                    if not ok_:
+                        raise Unknown("condition `%s` (line %s) of the skipping branch is neither a test of the scaling factor against a constant nor of r == a" % (render(c_)[:50], s.get("l")))
+                if val_ is None:
+                    raise Unknown("skipping branch at line %s does not test the scaling factor" % s.get("l"))
+                events.append((env, "skip", val_, inplace_, s.get("l")))
+                continue
             if s.get("k") != "Assign":
                 raise Unknown("statement `%s`" % render(s)[:60])
             t = mk.vsym(s["lhs"])
@@ -590,7 +642,13 @@ def analyse_matrix_kernel(ck, fn, struct):
         blk = ("I", "J") if mk.blocked else ()
         if struct in ("ScaleRows", "ScaleCols"):
             x = sympy.Symbol("x")
-            ev = [e for e in events if e[1] != "if"]
+            for env_, _, val_, inplace_, line_ in [e for e in events if e[1] == "skip"]:
+                if not inplace_:
+                    problems.append("line %s: entries whose scaling factor equals %s are skipped: the kernel is also the out-of-place operation this <- a * x (r and a are separate arrays), where the skipped entries of the target r are never written and keep whatever r held before%s" % (
+                        line_, val_, " (in place the shortcut would be right)" if val_ == 1 else "; in place they would have to become a*%s" % val_))
+                elif val_ != 1:
+                    problems.append("line %s: in-place entries whose factor equals %s are left unchanged instead of being multiplied by it" % (line_, val_))
+            ev = [e for e in events if e[1] not in ("if", "skip")]
             if len(ev) != 1:
                 raise Unknown("%d updates" % len(ev))
             env, t, op, new, line = ev[0]
@@ -607,6 +665,16 @@ def analyse_matrix_kernel(ck, fn, struct):
             state = {}        # symbolic per-row value of acc / out in terms of S = sum of terms
             S = sympy.Symbol("SUM")
             rowdef = False
+            if cleared is not None:
+                need = sympy.expand(sympy.Symbol("rows") * BH) if mk.blocked else sympy.Symbol("rows")
+                if cleared[0] == need:
+                    state[outp] = sympy.Integer(0)       # every entry the rows accumulate into starts from 0 (no row reads another row's entry)
+                    rowdef = True
+                else:
+                    problems.append("line %s: the clearing loop in front of the row loop zeroes %s[0 .. %s) but the rows accumulate (+=) into %s[0 .. %s): the entries beyond %s are accumulated onto whatever the output vector held before the call (second and later calls, re-used or uninitialised vectors)" % (
+                        cleared[1], outp, cleared[0], outp, need, cleared[0]))
+                    state[outp] = sympy.Integer(0)
+                    rowdef = True
             for env, t, op, new, line in events:
                 inK = "K" in env
                 if isinstance(t, str) and t == "rowexit":
@@ -704,7 +772,7 @@ def analyse_matrix_kernel(ck, fn, struct):
                         st_.get("l"), " and ".join(sorted(rels)) or "(nothing)"))
             detail = "diag[row] <- row_ptr[rows]; first entry with col_ind[entry]==row overwrites it"
         ck.ob("E2.matrix-kernel", key, not problems, "[%s] " % inst + ("; ".join(problems) if problems else detail), file, fn.line,
-              sample={"instantiation": inst, "events": [(str(e[1]), e[2] if isinstance(e[2], str) else "cond", str(e[3])) for e in events][:6]})
+              sample={"instantiation": inst, "events": [(str(e[1]), e[2] if isinstance(e[2], str) else "cond", str(e[3])) for e in events if e[1] != "skip"][:6]})
     except Wrong as e:
         ck.ob("E2.matrix-kernel", key, False, "[%s] %s" % (inst, e), file, fn.line)
     except Unknown as e:
@@ -1543,7 +1611,7 @@ def run(tier):
     ck.rule("E1.slots", "Arch call sites of SparseMatrixCSR/BCSR (axpy, scale, norm_frobenius, row_norm2/2sqr, max/min(_abs)_element, scale_rows/cols, lump_rows, extract_diag_indices) and of DenseMatrix::multiply (ProductMatMat::dense/dsd): every slot named by the callee's parameters receives the like-named accessor of the right object (structure arrays and extents of the receiver, value array of the operand matrix in slot a/x, the vector operand, the scalar, BlockHeight/BlockWidth; product: factors in order, summand z = the summand operand or the receiver, inner = columns(x)), pod arrays with pod entry counts; library array routines in the same members (MemoryPool::set_memory/copy/convert: `count` elements of the pointee type) receive value arrays and count in the same unit (scalars of Perspective::pod vs blocks). Broken for: rectangular matrices / rectangular blocks, alpha != 1, x != this, special-case paths (alpha == 0) on blocked matrices.", 46)
     ck.rule("E1.vector-guard", "the length guard of a vector operand names the dimension by which the kernel subscripts it (rows for row-indexed, columns for col_ind-indexed slots); scale_rows/scale_cols/lump_rows/extract_diag_indices state it as an always-on XASSERT. Broken for: rectangular matrices (valid operand rejected, or too short operand read out of bounds).", 24)
     ck.rule("E1.dispatch", "Arch wrappers of the matrix kernels forward each parameter to the like-named slot of the generic implementation of the same operation, on every path.", 46)
-    ck.rule("E2.matrix-kernel", "generic kernels ScaleRows/ScaleCols/Lumping/RowNorm/Diagonal (csr and bcsr): outer loop over [0,rows), entry loop over [row_ptr[row],row_ptr[row+1]), every array subscripted by the index kind of its role (entry, row, col_ind[entry]; blocked affine forms), per-row results defined outside the entry loop (empty rows), reductions only accumulate inside the entry loop, per-entry term and result equal the documented formula. Broken for: rectangular matrices, empty rows, rows with more than one entry/block.", 46)
+    ck.rule("E2.matrix-kernel", "generic kernels ScaleRows/ScaleCols/Lumping/RowNorm/Diagonal (csr and bcsr; helpers inlined): outer loop over [0,rows), entry loop over [row_ptr[row],row_ptr[row+1]), every array subscripted by the index kind of its role (entry, row, col_ind[entry]; blocked affine forms), per-row results defined outside the entry loop (empty rows) - per row, or by a clearing loop in front of the row loop that covers every entry the rows accumulate into (rows x BlockHeight scalars for blocked kernels) -, reductions only accumulate inside the entry loop, per-entry term and result equal the documented formula; scaling kernels write every entry of the target: a shortcut that skips entries on a test of the factor is right only for the in-place call (r == a, factor 1). Broken for: rectangular matrices, empty rows, rows with more than one entry/block, out-of-place scaling with unit factors, re-used output vectors of blocked row norms.", 46)
     ck.rule("E2.dense-product", "ProductMatMat::dense_generic / dsd_generic (DenseMatrix::multiply): loops over [0,rows) x [0,columns), a per-element sum that starts from 0 and only accumulates x_ik*y_kj over the inner dimension (dsd: over the entries of row i), row-major addresses of every array, and on every path through tests of the scalars and for every admissible aliasing of the output with the summand (z == r: the in-place update C <- alpha*A*B + beta*C, required by the MKL back end and used by multiply(x,y) itself) the net effect r_ij <- beta*z_ij(old) + alpha*sum; statements compose in program order. Broken for: non-square factors (addresses), in-place calls with beta != 0 (summand read after the output element was written).", 8)
     ck.rule("E2.merge-kinds", "add_double_mat_product / add_mat_mat_product (CSR, BCSR): every subscript of row_ptr/col_ind/val/elements of X, D, A, B has the index kind the array needs (Row/NZ/Col/Dim of that object); kinds of different objects are equal only through the function's own XASSERTs; compared column indices live in the same space; cursors are bounded by the end of their own segment. Broken for: products of non-square factors.", 86)
     ck.rule("E7.no-silent-drop", "merge loops (in the product itself or in a helper it calls, whatever the spelling: while/for, refusal inside or behind the loop, break / status return / status flag): on every path through one iteration an entry of the right factor B is passed over only after the accumulate statement X_ij += w*B_lj served it (itself executed only where the two column indices are equal, reading B at the cursor) or where allow_incomplete is known to be true, where advancing the B cursor by exactly one is the only permitted effect (at most one advance per iteration); every path that leaves the merge with entries of B remaining either reaches XABORTM or has allow_incomplete true AND the X cursor at the end of its row (no slot can follow); both cursors are checked against the end of their row before they are dereferenced, and the X cursor passes a slot only after serving it or when its column is smaller than the current B column. Broken for: output patterns poorer than the product pattern (silently wrong values instead of the documented abort), rows of X shorter than rows of B.", 7)
@@ -1552,6 +1620,20 @@ def run(tier):
     ck.rule("E1.result-dims", "matrix-algebra members that re-create *this (shrink) construct the result with rows_in <- rows(), columns_in <- columns() of the receiver (or of an operand asserted equal) on every exit, and all exits agree. Broken for: non-square matrices on the special-case exit (all entries dropped).", 3)
     ck.rule("E0.instantiable", "the matrix algebra members instantiate for CSR and BCSR (square and rectangular blocks)", 3)
 
+    ck.rule("E2.flat-kernel", "the generic flat kernels the matrix members hand their (pod) value arrays to - Arch::Axpy / Scale / Norm2 / MaxAbsIndex / MinAbsIndex / MaxIndex / MinIndex ::value_generic behind axpy, scale, norm_frobenius, max/min(_abs)_element (files kernel/lafem/arch/*_generic.hpp, outside the anchor list but relied upon) - satisfy the kernel rules of C04 (same analysis code, checks/c04.py): one induction over [0,size), element-wise definition under every aliasing pattern, reductions from 0, argmin/argmax seeded from element 0 (0 only for max-abs) with matching comparison and stored candidate. Broken for: matrices whose stored entries are all negative (max_element seeded with 0), aliased axpy/scale, empty matrices.", 28)
+    from checks import c04 as vec
+
+    class _Flat:
+        # obligations of the C04 kernel analyses recorded under this property's rule
+        def ob(self, rule, key, ok, detail="", file=None, line=None, sample=None, trivial=False):
+            return ck.ob("E2.flat-kernel", "%s:%s" % (rule, key), ok, detail, file, line, sample=sample, trivial=trivial)
+
+        def incomplete(self, rule, what):
+            ck.incomplete("E2.flat-kernel", "%s: %s" % (rule, what))
+
+        def note(self, s_):
+            ck.note(s_)
+    flat = _Flat()
     extra = ("-DVERIF_THOROUGH",) if tier == "thorough" else ()
     facts = featlib.extract("tu/c03_matrices.cpp", files=LAFEM + "|/verif/tu/", extra=extra)
     dfacts = featlib.extract("tu/c03_matrices.cpp", files=LAFEM, extra=extra, debug=True, cfg=False,
@@ -1597,6 +1679,14 @@ def run(tier):
             seen.add(ident)
             base = strip_targs(fn.cls)
             m = re.match(r"^FEAT::LAFEM::Arch::(\w+)$", base)
+            if m and m.group(1) in FLAT_KERNELS and fn.name == "value_generic":
+                # the flat kernels the matrix members hand their value arrays to: decided by the kernel rules of C04 (same code)
+                kfn = inline_helpers(fn)
+                if m.group(1) in vec.KERNEL_DEF:
+                    vec.analyse_mapfold(flat, kfn, m.group(1), False)
+                elif m.group(1) in vec.INDEX_KERNELS:
+                    vec.analyse_index_kernel(flat, kfn, m.group(1), False)
+                continue
             if m and m.group(1) == "ProductMatMat":
                 if fn.name in ("dense_generic", "dsd_generic"):
                     analyse_product_kernel(ck, inline_helpers(fn))
@@ -1645,7 +1735,7 @@ def run(tier):
         ck.note("sibling agreement: all %d merge loops (%s) have identical normalised cursor logic" % (len(set(list(sib.values())[0])), ", ".join(sorted(set(list(sib.values())[0])))))
     ck.assume("E7 is decided by path enumeration over the statement trees of the instantiated members with repository helpers inlined (lib/norm_c03); each loop is entered in an arbitrary state of the variables it writes (one generic iteration); the accumulate statement is the unique statement that writes this->val()[cursor]; the right factor is the parameter named b")
     ck.assume("sortedness of column indices inside a row (precondition of a sorted merge) is an input contract of CSR/BCSR and not checked here")
-    ck.assume("numerical equality with the dense formulas (rounding, 0*NaN), min/max tie-breaking, the MKL/CUDA back ends of ProductMatMat and the vector kernels shared with C04 (Axpy/Scale/Norm2/Min/Max index: decided in C04) are not decided here; in the dense product the only aliasing of the output considered admissible is with the summand (r == z), as the MKL back end requires and multiply(x,y) does")
+    ck.assume("numerical equality with the dense formulas (rounding, 0*NaN), min/max tie-breaking, the MKL/CUDA back ends of ProductMatMat are not decided here; the flat kernels shared with C04 (Axpy/Scale/Norm2/Min/Max index value_generic) are decided here by C04's kernel analyses (rule E2.flat-kernel); in the dense product the only aliasing of the output considered admissible is with the summand (r == z), as the MKL back end requires and multiply(x,y) does")
     return ck.finish(
         "Static rules over the clang-resolved program (driver tu/c03_matrices.cpp: SparseMatrixCSR<double>, SparseMatrixBCSR<double,3,3> and <double,2,3>, DenseMatrix<double>%s): role agreement at every Arch call site of the matrix "
         "algebra members (slots named by the callee's parameters, perspectives, block dimensions, vector length guards incl. debug ASSERTs), index-kind and formula conformance of the generic "
